@@ -343,6 +343,9 @@ func serveHTTP(handler http.Handler, clock *Clock, method, url string, body []by
 		return hc
 	}
 	req.RequestURI = req.URL.RequestURI()
+	if req.Body == nil {
+		req.Body = http.NoBody // a server-side request always has a body
+	}
 	for k, v := range header {
 		req.Header[k] = v
 	}
